@@ -86,14 +86,14 @@ CHECKS = {
         "engine": "input-enum", "category": "model_checking", "design_ref": "DESIGN.md §2 C05/C06",
         "technique": "transition system: state = document tree, transition = cleaning pass; tree invariant checked in every state from an exhaustively enumerated set of initial trees",
         "text": "States are trees, transitions the 57 entries of TreeCleaner.cleaner_methods in order, initial states the parse of every input of the enumerated families (cleaner-trigger alphabet^<=2 [thorough: + x contexts, ^3 subset], "
-                "SIGMA^1, SIGMA_CORE^2 [^3], contexts x SIGMA_CORE [x SIGMA], document grammar). An own validator (identity-unique nodes, parent links, acyclic, Text leaves) runs after build_advanced_tree and after every single pass; the container contract after the full sequence.",
+                "SIGMA^1, SIGMA_CORE^2 [^3], contexts x SIGMA_CORE [x SIGMA], document grammar, line breaks in every wrapper, malformed lists in lists, nesting to depth 220, one cleaner over two articles, books of <=3 articles x 3 layouts cleaned in one go). An own validator (identity-unique nodes, parent links, acyclic, Text leaves) runs after build_advanced_tree and after every single pass; the container contract after the full sequence.",
         "note": "alphabets in mc/gen/wikitext.py and mc/gen/cleantriggers.py (one trigger per condition visible in treecleaner.py).",
     },
     "C06": {
         "engine": "input-enum", "category": "model_checking", "design_ref": "DESIGN.md §2 C05/C06",
         "technique": "same transition system; progress oracle on every transition (pass returns, no exception, watchdog), fixed-point passes re-applied, clean_all() report free of swallowed errors",
         "text": "Same exploration as C05; each pass is called directly without the catch-all and must return normally within the watchdog; fix_nesting / fix_paragraphs / remove_breaking_returns are applied a second time and must leave the tree unchanged; "
-                "clean_all() on a fresh copy must not report ERROR. Evidence lists how many inputs changed the tree under each pass and which passes never fired.",
+                "clean_all() on a fresh copy must not report ERROR; the articles of a book cleaned as a whole must equal those cleaned in one-article books. Evidence lists how many inputs changed the tree under each pass and which passes never fired.",
         "note": "a pass whose trigger is not in the alphabets is listed under passes_that_never_changed_a_tree in the evidence.",
     },
     "C03": {
